@@ -101,7 +101,13 @@ def _run(seg_ids, mode, hits):
 
 
 
-VFIELDS = ["name", "fa * k", "fb * k", "fa + fb", "seq[0] * 1000", "name * 2", "nope", "[fa, fb]"]
+VFIELDS = ["name", "fa * k", "fb * k", "fa + fb", "seq[0] * 1000", "name * 2", "nope", "[fa, fb]",
+           # failing fields whose error TEXT is not simply the first argument of the exception
+           "d['zz']", "gone()"]
+
+
+def _gone():
+    raise OSError(2, "gone")
 
 
 def field_values(i1: int, i2: int, i3: int, nf: int, mv: int = 0) -> str:
@@ -109,7 +115,7 @@ def field_values(i1: int, i2: int, i3: int, nf: int, mv: int = 0) -> str:
     A collecting log tracepoint records one LOG watch result per field, and each resolves - in the snapshot's own table -
     to THAT field's value (type name and text), also when several fields evaluate to short-lived temporaries of the
     same size (floats, big ints, strings, lists), whose memory the interpreter reuses at once.
-    PRE: 0 <= i1 <= 7 and 0 <= i2 <= 7 and 0 <= i3 <= 7 and 2 <= nf <= 3 and 0 <= mv <= 3
+    PRE: 0 <= i1 <= 9 and 0 <= i2 <= 7 and 0 <= i3 <= 7 and 2 <= nf <= 3 and 0 <= mv <= 3
     PRE: mv == 0 or nf == 2
     POST: _ == ""
     """
@@ -117,7 +123,7 @@ def field_values(i1: int, i2: int, i3: int, nf: int, mv: int = 0) -> str:
     from deep.api.tracepoint.trigger import build_trigger
     i1, i2, i3, nf, mv = [world.realize(x) for x in (i1, i2, i3, nf, mv)]
     fields = [VFIELDS[i] for i in (i1, i2, i3)[:nf]]
-    loc = {"name": "bob", "fa": 1.5, "fb": 2.25, "k": 3.0, "seq": [5, 6]}
+    loc = {"name": "bob", "fa": 1.5, "fb": 2.25, "k": 3.0, "seq": [5, 6], "d": {"k": 1}, "gone": _gone}
     w = World()
     template = " ".join("{%s}" % f for f in fields)
     trig = build_trigger("tp1", "f.py", 7, {"fire_count": "1", "fire_period": "0", "log_msg": template}, ["k * k"], [])
@@ -275,8 +281,8 @@ MUTANTS = {"no_keep_alive": _mut_no_keep_alive, "prefix_dropped": _mut_prefix_dr
 _Q3 = ["n == 3 and hits == 1 and s1 == %d and mode == %d and s3 in (1, 3, 4, 5, 10)" % (a, m) for a in (3, 4, 5, 10) for m in range(2)]
 _LE2 = ["n <= 2 and mode == %d and hits == %d and s1 == %d" % (m, h, a) for m in range(2) for h in (1, 3) for a in range(12)]
 CONDITIONS = [
-    dict(fn="field_values", cubes=["nf == %d and i1 == %d" % (n, a) for n in (2, 3) for a in range(8)], twins=["reach", "mutant:no_keep_alive@nf == 2 and i1 == 1"],
-         bounds="templates of 2-3 fields over 8 expressions (a local, 5 producing temporaries: floats, big int, str, list; a failing one) on a collecting tracepoint that also has a configured watch; the tracepoint's variable budget default / 0 / 3 / 6"),
+    dict(fn="field_values", cubes=["nf == %d and i1 == %d" % (n, a) for n in (2, 3) for a in range(10)], twins=["reach", "mutant:no_keep_alive@nf == 2 and i1 == 1"],
+         bounds="templates of 2-3 fields over 10 expressions (a local, 5 producing temporaries: floats, big int, str, list; 3 failing ones incl. KeyError / OSError, whose text is not their first argument) on a collecting tracepoint that also has a configured watch; the tracepoint's variable budget default / 0 / 3 / 6"),
     dict(fn="builtin_logger", cubes=["lit == %d and s1 %s" % (l, r) for l in range(4) for r in ("<= 5", ">= 6")], twins=["reach"],
          bounds="the real PythonPlugin.log_tracepoint (its logging call captured): 12x12 two-segment templates x 4 literal tails containing '%' forms; a field value containing '%s'"),
     dict(fn="render3", cubes={"quick": _LE2 + _Q3,
